@@ -2,16 +2,16 @@ SPECIFICATION Spec
 CONSTANTS
   MaxRuns = 3
   MaxEdits = 2
-  MaxTouch = 0
+  MaxTouch = 1
   Sqlite = FALSE
-  WithCrash = TRUE
+  WithCrash = FALSE
   MaxFail = 0
-  RemoveExFirst = FALSE
+  RemoveExFirst = TRUE
   FreshOldHash = TRUE
   DropMetaOnFail = TRUE
   UseIndirect = TRUE
-  WithAbsent = FALSE
-  CheckDepList = TRUE
+  WithAbsent = TRUE
+  CheckDepList = FALSE
 VIEW mcview
 INVARIANT OutEqualsCold
 INVARIANT FreshIsRight
